@@ -235,7 +235,10 @@ def run(ctx):
                     rets.append((i, strip_sym(sy.rvalue(st["rv"], 0, frozenset()))))
             for i, v in rets:
                 for first, second in (("Block<T>::len", "Block<T>::next_len"), ("Block<T>::next_len", "Block<T>::len")):
-                    if is_zero_test(v, second) and any(lab is True and is_zero_test(strip_sym(d), first) for d, lab in gates(b, i, up=False)):
+                    def nonzero_test(v_, callee):
+                        return v_[0] == "bin" and ((v_[1] == "Ne" and ((sym_is_call(v_[2], callee) and const_int(v_[3]) == 0) or (sym_is_call(v_[3], callee) and const_int(v_[2]) == 0))) or (v_[1] == "Gt" and sym_is_call(v_[2], callee) and const_int(v_[3]) == 0))
+
+                    if is_zero_test(v, second) and any((lab is True and is_zero_test(strip_sym(d), first)) or (lab is False and nonzero_test(strip_sym(d), first)) for d, lab in gates(b, i, up=False)):
                         ok = True
             if g_ is ie:
                 trues = [i for i, v in rets if v[:3] == ("const", "bool", True)]
